@@ -195,6 +195,7 @@ def run_c11_case(res: dict, params: dict, seed: Any, judge_c10: bool = False, ju
         t_call = w.now
         task = w.spawn('me', net.create_peer_connection('bob', p['typ']), name='vf-c11-request')
         cancelled = False
+        t_cancel = None
         if p['cancel'] == 'steps':
             await yields(p['cancel_k'])
             if not task.done():
@@ -205,6 +206,8 @@ def run_c11_case(res: dict, params: dict, seed: Any, judge_c10: bool = False, ju
             if not task.done():
                 task.cancel()
                 cancelled = True
+        if cancelled:
+            t_cancel = w.now
         outcome: Any
         conn = None
         try:
@@ -227,6 +230,13 @@ def run_c11_case(res: dict, params: dict, seed: Any, judge_c10: bool = False, ju
             outcome = f'other:{type(exc).__name__}'
         t_ret = w.now
 
+        if judge_c11 and cancelled and outcome != 'cancelled' and t_ret - t_cancel > 0.5:
+            # a cancellation that coincides with a timeout may surface as that timeout, at once; a request that
+            # goes on for longer has swallowed the cancellation
+            viol.append((f"c11:cancellation-not-honoured:{outcome}:{p['mode']}",
+                         {'params': p, 'went_on_for_virtual_s': round(t_ret - t_cancel, 3)}))
+        if cancelled:
+            obs['cancellations_judged'] = obs.get('cancellations_judged', 0) + 1
         server_up = p['indirect'] != 'server-down'
         direct_works = p['direct'] in ('fast', 'slow') and (server_up or False)
         # GetPeerAddress needs the server too
@@ -406,6 +416,10 @@ def run_connect_back_case(res: dict, rng: random.Random, seed: Any, judge_c10: b
                      'gap': rng.choice([0.0, 0.0, 0.01, 1.0])})
     prefer_obf = rng.random() < 0.5
     omit_obf_fields = random.Random(f'{seed}:omit').random() < 0.4
+    # history: the peer already has an established peer connection with the client when the request is relayed
+    prng = random.Random(f'{seed}:pre')
+    for r in reqs:
+        r['pre_connected'] = prng.choice([None, None, 'peer-dialed', 'client-dialed'])
 
     async def main(w: World):
         from aioslsk.protocol.messages import CannotConnect, ConnectToPeer, PeerPierceFirewall
@@ -445,6 +459,22 @@ def run_connect_back_case(res: dict, rng: random.Random, seed: Any, judge_c10: b
             if r['gap']:
                 await asyncio.sleep(r['gap'])
             peer = r['peer']
+            if r['pre_connected'] == 'peer-dialed':
+                try:
+                    await peer.dial(me.port, 'P', host=w.net.ip_of('me'))
+                    obs['connect_back_with_existing_connection'] = obs.get('connect_back_with_existing_connection', 0) + 1
+                except (ConnectionError, OSError):
+                    pass
+                await settle(0.1)
+            elif r['pre_connected'] == 'client-dialed' and r['behaviour'] in ('accept', 'accept-slow'):
+                try:
+                    await me.call(me.client.network.create_peer_connection(
+                        peer.name, 'P', ip=peer.ip, port=peer.obf_port if (prefer_obf and peer.obf_port) or not peer.port else peer.port,
+                        obfuscate=bool((prefer_obf and peer.obf_port) or not peer.port)))
+                    obs['connect_back_with_existing_connection'] = obs.get('connect_back_with_existing_connection', 0) + 1
+                except Exception:  # noqa
+                    pass
+                await settle(0.1)
             w.pending_pierce[(peer.name, r['ticket'])] = (r['typ'], 'me')
             if omit_obf_fields and not peer.obf_port:
                 # the obfuscated-port fields are optional on the wire
